@@ -990,4 +990,243 @@ def isNoneProb (kv : String × Cell V R) : Bool :=
 
 def dropNoneProb (o : Row V R) : Row V R := o.filter (fun kv => !isNoneProb kv)
 
+
+/-! ## Phase 4a — every mode the constructor accepts ('dr'/'dm' included): package guard and reward targets
+
+`SequentialCB.__init__` accepts `learn ∈ {on, off, ips, dr, dm, None}` and `eval ∈ {on, ips, dr, dm, None}` without any
+check.  `_results` turns the mode into a reward *type* (`learn_type`/`eval_type` ∈ {'IPS','DR','DM'}) and, per type, builds
+`OpeRewards(type, target=…)`: the learn filter (target `learn_rewards`) first, then — only when `eval_type` is set and
+differs from `learn_type` — the eval filter (target `eval_rewards`); the loop then reads `interaction[learn_target]` and
+`interaction[eval_target]`.  `OpeRewards.__init__` calls `PackageChecker.vowpalwabbit` for 'DM' and 'DR', which raises
+`CobaExit` when the package is absent — after `_validate`, before any interaction is read or the learner is used.
+With the package present 'DM'/'DR' rewards come from a regressor trained on the log; that is not modelled
+(`OutcomeX.notModelled`). -/
+
+inductive LearnModeX | on | off | ips | dr | dm | none
+  deriving DecidableEq, Repr
+
+inductive EvalModeX | on | ips | dr | dm | none
+  deriving DecidableEq, Repr
+
+/-- `learn_type` / `eval_type` / the `rwd_type` of `OpeRewards` -/
+inductive OpeType | ips | dr | dm
+  deriving DecidableEq, Repr
+
+structure ConfigX where
+  learn : LearnModeX
+  eval : EvalModeX
+  record : List String
+  deriving Repr
+
+def ConfigX.rcd (c : ConfigX) (name : String) : Bool := c.record.contains name
+
+/-- `learn_type = 'IPS' if lrn_ips else 'DR' if lrn_dr else 'DM' if lrn_dm else None` -/
+def learnType : LearnModeX → Option OpeType
+  | .ips => some .ips
+  | .dr => some .dr
+  | .dm => some .dm
+  | _ => none
+
+/-- `eval_type  = 'IPS' if val_ips else 'DR' if val_dr else 'DM' if val_dm else None` -/
+def evalType : EvalModeX → Option OpeType
+  | .ips => some .ips
+  | .dr => some .dr
+  | .dm => some .dm
+  | _ => none
+
+/-- `OpeRewards.__init__`: `if rwd_type in ['DM','DR']: PackageChecker.vowpalwabbit(…)` -/
+def needsVw : OpeType → Bool
+  | .ips => false
+  | .dr => true
+  | .dm => true
+
+/-- `eval_type and eval_type != learn_type` -/
+def evalOwnX (c : ConfigX) : Bool := (evalType c.eval).isSome && evalType c.eval != learnType c.learn
+
+def learnTargetX : String := "learn_rewards"
+
+/-- `eval_target = 'eval_rewards' if eval_type and eval_type != learn_type else 'learn_rewards'` -/
+def evalTargetX (c : ConfigX) : String := if evalOwnX c then "eval_rewards" else "learn_rewards"
+
+/-- the `OpeRewards(type, target)` filters `_results` constructs, in construction order -/
+def opeFilters (c : ConfigX) : List (OpeType × String) :=
+  (match learnType c.learn with
+    | some t => [(t, "learn_rewards")]
+    | none => [])
+  ++ (match evalType c.eval with
+    | some t => if evalOwnX c then [(t, "eval_rewards")] else []
+    | none => [])
+
+def outActionX (c : ConfigX) : Bool := c.rcd "action" && c.eval != .none
+def outProbX (c : ConfigX) : Bool := c.rcd "probability" && c.eval != .none
+
+/-- `should_pred` for every mode -/
+def shouldPredX (c : ConfigX) (hasScore : Bool) : Bool :=
+  (c.learn != .none && c.learn != .off) || c.eval == .on || c.eval == .dm || c.eval == .dr || (c.eval == .ips && !hasScore)
+    || outActionX c || outProbX c
+
+/-- `_required(has_score)` for every mode -/
+def requiredX (c : ConfigX) (hasScore : Bool) : List String :=
+  let pred := (c.learn != .none && c.learn != .off) || (c.eval != .none && (c.eval != .ips || !hasScore))
+                || outActionX c || outProbX c
+  let off := (c.learn != .none && c.learn != .on) || (c.eval != .none && c.eval != .on)
+  let rwds := c.learn == .on || c.eval == .on
+  (if pred then ["actions"] else []) ++ (if off then ["action", "reward"] else [])
+    ++ (if rwds then ["rewards"] else [])
+
+def LearnModeX.base : LearnModeX → Option LearnMode
+  | .on => some .on
+  | .off => some .off
+  | .ips => some .ips
+  | .none => some .none
+  | _ => Option.none
+
+def EvalModeX.base : EvalModeX → Option EvalMode
+  | .on => some .on
+  | .ips => some .ips
+  | .none => some .none
+  | _ => Option.none
+
+/-- the configuration in the modes that need no optional package, if it is one -/
+def ConfigX.base (c : ConfigX) : Option Config :=
+  match c.learn.base, c.eval.base with
+  | some l, some e => some { learn := l, eval := e, record := c.record }
+  | _, _ => Option.none
+
+inductive OutcomeX (α : Type) where
+  | done (o : Outcome α)                               -- what the package-free model says
+  | packageMissing (t : OpeType) (target : String)     -- CobaExit raised by `OpeRewards(t, target=…)` (no vowpalwabbit)
+  | notModelled                                        -- 'dr'/'dm' with vowpalwabbit installed (trained reward regressor)
+  deriving DecidableEq
+
+/-- `SequentialCB(record, learn, eval).evaluate(env, learner)` for every accepted mode; `vw` = vowpalwabbit is installed -/
+def evaluateX [DecidableEq V] [RewardFn R V] (vw : Bool) (c : ConfigX) (L : Learner σ V) (bs : Option Nat)
+    (env : List (Dict (Fld V R))) (s : σ) : OutcomeX (σ × List (Call V) × List (Row V R)) :=
+  match env with
+  | [] => .done (.ok (s, [], []))
+  | first :: _ =>
+    let miss := (requiredX c L.hasScore).filter (fun k => !first.has k)
+    if !miss.isEmpty then .done (.rejected miss)
+    else match (opeFilters c).find? (fun tt => needsVw tt.1 && !vw) with
+      | some tt => .packageMissing tt.1 tt.2
+      | none =>
+        match c.base with
+        | some c0 => .done (evaluate c0 L bs env s)
+        | Option.none => .notModelled
+
+/-- a prediction is part of what the mode means (docstring), or the record options ask for its outcome -/
+def needPredX (c : ConfigX) (hasScore : Bool) : Bool :=
+  c.learn == .on || c.learn == .ips || c.learn == .dr || c.learn == .dm
+    || c.eval == .on || c.eval == .dr || c.eval == .dm || (c.eval == .ips && !hasScore)
+    || (c.eval != .none && (c.rcd "action" || c.rcd "probability"))
+
+/-- documented requirements for every mode (docstring of `SequentialCB.__init__`): on — actions, rewards; off — action,
+reward; ips — actions, action, reward, probability; dr/dm — actions, action, reward -/
+def requiredSX (c : ConfigX) (hasScore : Bool) : List String :=
+  (if needPredX c hasScore then ["actions"] else [])
+    ++ (if c.learn == .off || c.learn == .ips || c.learn == .dr || c.learn == .dm
+          || c.eval == .ips || c.eval == .dr || c.eval == .dm then ["action", "reward"] else [])
+    ++ (if c.learn == .on || c.eval == .on then ["rewards"] else [])
+    ++ (if c.learn == .ips || c.eval == .ips then ["probability"] else [])
+
+/-! ## Phase 4b — the record-field set of a row -/
+
+/-- the reserved-name cells `_results` writes into a row, in order, as a function of the configuration, the flags of the
+first interaction, whether a prediction is made, batching, and whether the learner reported a probability -/
+def recordKeys (c : Config) (fl : Flags) (sp batched hasPr : Bool) : List String :=
+  (if c.rcd "context" then ["context"] else [])
+  ++ (if c.rcd "actions" && fl.hasActions then ["actions"] else [])
+  ++ (if outAction c then ["action"] else [])
+  ++ (if c.rcd "reward" && c.eval != .none then ["reward"] else [])
+  ++ (if c.rcd "rewards" && fl.hasRewards then ["rewards"] else [])
+  ++ (if outProb c && sp && (batched || hasPr) then ["probability"] else [])
+
+/-! ## Phase 4c — heterogeneous environments: which reserved keys the code reads from every interaction
+
+All `has_*` flags come from the first interaction.  For a later interaction `d` the filters and the loop body subscript
+exactly the keys below (program order): `Finalize` builds `DiscreteReward(new['actions'], new['rewards'])` when the FIRST
+interaction's rewards are a list; each `OpeRewards('IPS')` reads `interaction['action']`, `interaction['reward']`
+(`probability` via `.get`); the loop reads `interaction[k] if has_k` for context, actions, rewards, reward, action
+(`probability` via `.get`).  Any other reserved key of `d` is ignored. -/
+
+def neededKeys (c : Config) (fl : Flags) : List String :=
+  (if fl.rwdsIsList then ["actions", "rewards"] else [])
+  ++ (if learnIps c then ["action", "reward"] else [])
+  ++ (if evalIpsOwn c then ["action", "reward"] else [])
+  ++ (if fl.hasContext then ["context"] else [])
+  ++ (if fl.hasActions then ["actions"] else [])
+  ++ (if fl.hasRewards then ["rewards"] else [])
+  ++ (if fl.hasReward then ["reward"] else [])
+  ++ (if fl.hasAction then ["action"] else [])
+
+/-- the keys the code subscripts and `d` lacks, in program order (the first one is the `KeyError`) -/
+def missingOf (c : Config) (fl : Flags) (d : Dict (Fld V R)) : List String :=
+  (neededKeys c fl).filter (fun k => !d.has k)
+
+/-- index of the first interaction lacking a key the code subscripts, with the keys it lacks -/
+def firstBad (c : Config) (fl : Flags) : List (Dict (Fld V R)) → Option (Nat × List String)
+  | [] => none
+  | d :: ds =>
+    if (missingOf c fl d).isEmpty then (firstBad c fl ds).map (fun r => (r.1 + 1, r.2))
+    else some (0, missingOf c fl d)
+
+/-- every reserved field that is present has a shape the code can work with (no homogeneity demanded) -/
+def shapeOk (fl : Flags) (d : Dict (Fld V R)) : Bool :=
+  (match d.get? "context" with
+    | none => true
+    | some (.val _) => true
+    | some .none => true
+    | _ => false)
+  && (match d.get? "actions" with
+    | none => true
+    | some (.acts _) => true
+    | _ => false)
+  && (match d.get? "rewards" with
+    | none => true
+    | some (.rlist rs) => fl.rwdsIsList && (match d.get? "actions" with
+        | some (.acts as) => as.length == rs.length
+        | _ => true)
+    | some (.rfn _) => !fl.rwdsIsList
+    | _ => false)
+  && (match d.get? "action" with
+    | none => true
+    | some (.val _) => true
+    | some .none => true
+    | _ => false)
+  && (match d.get? "reward" with
+    | none => true
+    | some (.num _) => true
+    | _ => false)
+  && (match d.get? "probability" with
+    | none => true
+    | some (.num _) => true
+    | some .none => true
+    | _ => false)
+  && !d.has "learn_rewards" && !d.has "eval_rewards"
+
+/-! ## Python spellings of the modes and reward types (used by the translator obligations and the driver) -/
+
+/-- the constructor argument `learn` -/
+def LearnModeX.pyName : LearnModeX → Option String
+  | .on => some "on" | .off => some "off" | .ips => some "ips" | .dr => some "dr" | .dm => some "dm" | .none => Option.none
+
+/-- the constructor argument `eval` -/
+def EvalModeX.pyName : EvalModeX → Option String
+  | .on => some "on" | .ips => some "ips" | .dr => some "dr" | .dm => some "dm" | .none => Option.none
+
+/-- `rwd_type` -/
+def OpeType.pyName : OpeType → String
+  | .ips => "IPS" | .dr => "DR" | .dm => "DM"
+
+/-- `_required` with its three key lists as parameters -/
+def requiredWith (kPred kOff kRwds : List String) (c : ConfigX) (hasScore : Bool) : List String :=
+  let pred := (c.learn != .none && c.learn != .off) || (c.eval != .none && (c.eval != .ips || !hasScore))
+                || outActionX c || outProbX c
+  let off := (c.learn != .none && c.learn != .on) || (c.eval != .none && c.eval != .on)
+  let rwds := c.learn == .on || c.eval == .on
+  (if pred then kPred else []) ++ (if off then kOff else []) ++ (if rwds then kRwds else [])
+
+/-- the default of the `record` argument -/
+def defaultRecord : List String := ["reward", "action", "probability"]
+
 end Coba.C06
